@@ -22,7 +22,7 @@ var c08Rules = map[string]bool{"retention-set": true, "counter-num-in-state": tr
 	"point-query-pruned-still-served": true, "point-query-missing": true, "record-lost-within-retention": true}
 var c09Rules = map[string]bool{"next-id": true, "registration-set": true, "registration-missing": true, "owner-changed": true, "fields-changed": true,
 	"regtime-changed": true, "record-by-non-owner": true, "purchase-by-non-owner": true, "record-unknown-id": true, "purchase-unknown-id": true,
-	"register-field-limits": true, "listing-order": true, "failed-tx-changed-registry": true}
+	"register-field-limits": true, "listing-order": true, "failed-tx-changed-registry": true, "listing-fields": true, "listing-error": true}
 
 func init() {
 	mk := func(id string, rules map[string]bool, rule string, need []string) {
